@@ -5,16 +5,20 @@ statements).
 import TboxModel.C12.Pipeline
 namespace Tbox.C12
 
-/-- what the handlers may do with one connection: requests are delivered only while no closing
-request has been seen (this is what the patched feed loop guarantees, `C12_no_request_after_close`)
-and a response can only be committed for a request that was delivered -/
+/-- admissible histories of one connection: requests are delivered only while no closing
+request has been seen (this is what the patched feed loop guarantees, `C12_no_request_after_close`),
+a response can only be committed for a request that was delivered, and — the send-side contract
+of BufferedFd assumed here (property C06) — send-complete is reported only when every byte handed
+to `send` has been written to the socket. Peer close (`drop`) and kernel progress may occur anywhere. -/
 def traceOk : Pipe → List PipeOp → Bool
   | _, [] => true
   | p, op :: ops =>
     (match op with
       | .req _ => p.closeIndex.isNone
       | .commit i _ => decide (i < p.reqIndex)
-      | _ => true) && traceOk (p.step op) ops
+      | .sendComplete => !p.valid || decide (p.sent = p.handed.length)
+      | .drop => true
+      | .kernel _ => true) && traceOk (p.step op) ops
 
 /-- responses were written in request order, each index once: indices 0,1,…,n-1 -/
 def InOrderOnce (written : List (Nat × Bytes)) (n : Nat) : Prop := written.map (·.1) = List.range n
